@@ -412,6 +412,8 @@ def moveElem (parent idx v : Nat) : M Unit := do
   let s ← getS
   let anchor := ((kids (rowsOf s parent) parent)[idx]?).map (·.nid)
   if (subtreeRows s v).any (·.nid == parent) then raise (.unmodelled "moving an element below itself")
+  if (locate s.frags v).isSome && ((findRow s v).bind (·.parent)).isNone then
+    raise (.unmodelled "moving the root of a fragment file")
   if anchor == some v then
     -- moved before itself: the tree stays; the index entries are removed and added again
     hit "move.noop"
@@ -1007,6 +1009,10 @@ def iterDescendants : Nat → Nat → M (List Nat)
 written; an exception unwinds the stack with the exception passed to the generators, none of which catches it.
 Returns the exits, newest first (the order `ExitStack` runs them). -/
 def deleteEnter (t : Tables) (self : ARow) (elements : List Nat) : M (List PurgeExit) := do
+  -- a member that is the root of its own fragment file (`getparent()` is None): the known findings of C08/C09
+  -- (`…|member-is-fragment-root`) live here; outside the modelled domain
+  for e in elements do
+    if (← parentOf e).isNone then raise (.unmodelled "deleting the root of a fragment file")
   -- all_elements = descendants (following fragment placeholders) + elements
   let mut descendants : List Nat := []
   for e in elements do descendants := descendants ++ (← iterDescendants 16 e)
@@ -1293,6 +1299,7 @@ def listCreate (t : Tables) (row : ARow) (owner : Nat) (elems : List Nat) (hint 
       if !row.rootelem.isEmpty then raise .typeError else accCreate 8 t row owner none hint kw
     | .roleTagAccessor => accCreate 8 t row owner row.tag hint kw
     | .typecastAccessor => raise (.unmodelled "TypecastAccessor.create")
+    | .attributeAccessor => raise (.unmodelled "AttributeAccessor.create (own _match_xtype)")
     | _ => do hit "create.not-creatable"; raise .typeError)   -- WritableAccessor.create: "Cannot create objects"
   -- try: acc.insert(self, len(self), newobj)  except: parent._element.remove(newobj._element); raise
   tryExcept (accInsert row owner elems (elems.length : Int) (.elem newobj))
